@@ -35,19 +35,21 @@ type final struct {
 func finish(e *sched.Exec, w *schedfx.World, extra func(f *final)) func() {
 	return func() {
 		f := &final{}
-		evs, closed := w.Lst.StopCheck()
-		for _, ev := range evs {
-			f.setup = append(f.setup, w.EventStr(ev))
-		}
-		f.closed = closed
+		e.Guarded("cancel and drain of the listener", func() {
+			evs, closed := w.Lst.StopCheck()
+			for _, ev := range evs {
+				f.setup = append(f.setup, w.EventStr(ev))
+			}
+			f.closed = closed
+		})
 		for i := range w.Pubs {
 			f.latest = append(f.latest, w.Latest(i))
 		}
 		if extra != nil {
-			extra(f)
+			e.Guarded("reading the other listeners to the end", func() { extra(f) })
 		}
 		e.Data = f
-		w.Close()
+		w.CloseGuarded()
 	}
 }
 
@@ -346,6 +348,77 @@ func failingAnnounce() *sched.Scenario {
 	}
 }
 
+// N5: three notifications in flight. Explicit syncs of two publishers (their
+// blocks are local, so they only make the head request) and an announce-
+// triggered sync of the first publisher whose block request fails. The event
+// channel between the syncs and the distributor holds one notification; with
+// the distributor lagging, the later ones have to wait for room, not vanish:
+// the listener gets each success once and exactly one error notification.
+func threeInFlight() *sched.Scenario {
+	name := "N5-two-syncs-and-a-failing-announce"
+	return &sched.Scenario{Name: name,
+		Setup: func(e *sched.Exec) ([]sched.Thread, func()) {
+			w := schedfx.New(e, schedfx.Options{Pubs: 2, ChainLen: 3, Announce: true})
+			// blocks 1 of both publishers are local; block 2 of publisher 0 has to be
+			// requested by the announce-triggered sync, and that request fails
+			for pi := range w.Pubs {
+				if b, ok := w.Pubs[pi].Src.Get(w.Chains[pi].Cids[1]); ok {
+					w.Dst.Put(w.Chains[pi].Cids[1], b)
+				}
+				w.Pubs[pi].Publisher.SetRoot(w.Chains[pi].Cids[1])
+			}
+			w.FailReq["0|2|0"] = true
+			ths := []sched.Thread{
+				{Name: "X0", Fn: func() {
+					e.Log("X0 call sync")
+					_, err := w.Sub.SyncAdChain(context.Background(), w.Pubs[0].AddrInfo())
+					e.Log("X0 ret sync ok=%v", err == nil)
+					e.Log("X0 call Announce")
+					err = w.Sub.Announce(context.Background(), w.Chains[0].Cids[2], w.Pubs[0].AddrInfo())
+					e.Log("X0 ret Announce err=%v", err != nil)
+				}},
+				{Name: "X1", Fn: func() {
+					e.Log("X1 call sync")
+					_, err := w.Sub.SyncAdChain(context.Background(), w.Pubs[1].AddrInfo())
+					e.Log("X1 ret sync ok=%v", err == nil)
+				}},
+			}
+			return ths, finish(e, w, nil)
+		},
+		Check: func(e *sched.Exec) []sched.Finding {
+			out := basics(e, name, []string{"X0", "X1"})
+			f, _ := e.Data.(*final)
+			if f == nil || len(out) > 0 {
+				return out
+			}
+			count := map[string]int{}
+			for _, ev := range f.setup {
+				count[ev]++
+			}
+			want := map[string]int{"pub0[1] count=1": 1, "pub1[1] count=1": 1, "pub0[2] count=0 err": 1}
+			for ev, n := range want {
+				if count[ev] != n {
+					sig := ":success-notification-missing-or-repeated"
+					if strings.HasSuffix(ev, " err") {
+						sig = ":failed-sync-not-exactly-one-error-event"
+					}
+					out = append(out, sched.Finding{Sig: name + sig, Msg: fmt.Sprintf("listener registered before everything got %v; %q is expected exactly once", f.setup, ev)})
+				}
+			}
+			for ev := range count {
+				if want[ev] == 0 {
+					out = append(out, sched.Finding{Sig: name + ":unexpected-event", Msg: fmt.Sprintf("%q in %v", ev, f.setup)})
+				}
+			}
+			if f.latest[0] != 1 || f.latest[1] != 1 {
+				out = append(out, sched.Finding{Sig: name + ":latest-wrong", Msg: fmt.Sprint(f.latest)})
+			}
+			e.Class = fmt.Sprintf("events=%d", len(f.setup))
+			return out
+		},
+	}
+}
+
 // N4: a sync (explicit or announce-triggered) races with Close. A listener is
 // registered before everything and read only at the end. Whatever the
 // schedule, a sync that updated the latest-synced advertisement has produced
@@ -412,7 +485,7 @@ func syncVsClose(mode string) *sched.Scenario {
 
 func TestCheck(t *testing.T) {
 	r := vp.New("C14", "model_checking",
-		"scenarios on the real subscriber built with the instrumentation overlay (gated in-memory publishers, chains of 3 signed ads): N1 two publishers synced by two threads with a reading and a never-reading listener; N2 two successive explicit syncs of one publisher while a listener registers and cancels at scheduler-chosen moments and a reader polls (checking the latest-synced value at the moment each event arrives); N3 an announce-triggered sync with a failing block request; N4 an explicit / an announce-triggered sync racing with Close while a listener registered beforehand reads only at the end. All interleavings at the scheduling points (locks, atomics, channel operations of OnSyncFinished / cancel / the distributor, selects, spawns, requests, hook calls, observations) up to the preemption bound. states = distinct decision states; transitions = scheduling steps; traces = executions of the real code.",
+		"scenarios on the real subscriber built with the instrumentation overlay (gated in-memory publishers, chains of 3 signed ads): N1 two publishers synced by two threads with a reading and a never-reading listener; N2 two successive explicit syncs of one publisher while a listener registers and cancels at scheduler-chosen moments and a reader polls (checking the latest-synced value at the moment each event arrives); N3 an announce-triggered sync with a failing block request; N4 an explicit / an announce-triggered sync racing with Close while a listener registered beforehand reads only at the end; N5 explicit syncs of two publishers and a failing announce-triggered sync (three notifications in flight). All interleavings at the scheduling points (locks, atomics, channel operations of OnSyncFinished / cancel / the distributor, selects, spawns, requests, hook calls, observations) up to the preemption bound. states = distinct decision states; transitions = scheduling steps; traces = executions of the real code.",
 		"cooperative scheduling at synchronization operations; every multi-case select is a priority select whose first-tried case is a scheduler decision (a non-default first case costs one unit of the bound, like a preemption); at most 3 listeners and 2 publishers",
 		"in N1 and N2 the chain blocks are already in the destination store (they are reported but not requested), so each sync makes only the head request",
 		"'registered before the sync finished' is judged by real-time order in the observation log: registration returned before the sync was invoked, cancel invoked after it returned",
@@ -426,7 +499,7 @@ func TestCheck(t *testing.T) {
 	if vp.Thorough() {
 		bound = 3
 	}
-	scs := []*sched.Scenario{syncVsClose("explicit"), syncVsClose("announce"), twoPublishers(), registerDuringSyncs(), failingAnnounce()}
+	scs := []*sched.Scenario{syncVsClose("explicit"), syncVsClose("announce"), threeInFlight(), twoPublishers(), registerDuringSyncs(), failingAnnounce()}
 	r.Bounds(map[string]any{"preemption_bound": bound, "scenarios": len(scs)})
 	budget := 0.0
 	if v := os.Getenv("VERIF_BUDGET_S"); v != "" {
